@@ -30,7 +30,8 @@ type c20prop struct{ base }
 
 func (p *c20prop) Plan(tier string, seed int64) []core.Segment {
 	m := tierScale(tier, 50)
-	return []core.Segment{{Kind: "corpus:fields", N: 2000}, {Kind: "fields", N: 20000 * m}, {Kind: "docs", N: 4000 * m}, {Kind: "corpus:twin", N: 200}, {Kind: "twin", N: 2000 * m}}
+	return []core.Segment{{Kind: "corpus:fields", N: 2000}, {Kind: "fields", N: 20000 * m}, {Kind: "docs", N: 4000 * m}, {Kind: "corpus:twin", N: 200}, {Kind: "twin", N: 2000 * m},
+		{Kind: "loadtwin", N: 42 * tierScale(tier, 10), Chunk: 3}}
 }
 
 var costStrings = []string{"", "XZCost", "xz", "Cost<&>\"'", "naïve-ünicode ✓", " line", "a\\b/c", "null", " ", "XZCost\t"}
@@ -123,6 +124,38 @@ func (p *c20prop) Gen(kind string, idx int64, seed int64, tier string) core.Case
 			cc.Doc = doc
 		}
 		cc.Cfg = gen.Cfg{Type: typ}
+	case "loadtwin":
+		// defaulted search-structure parameters under load: kilobytes of
+		// bytes without repeats fill the tables, then the same bytes come
+		// again in permuted pieces, so that every piece needs a lookup that
+		// only succeeds if the table is as large as the reported one
+		cc.Twin = true
+		cc.Cfg = gen.Cfg{Type: typ}
+		cc.Cfg.BufferSize = []int{0, 1 << 16, 1 << 17, 40000, 1 << 14, 1 << 20}[r.Intn(6)]
+		cc.Cfg.WindowSize = []int{0, 1 << 15, 1 << 16, 0}[r.Intn(4)]
+		if cc.Cfg.BufferSize != 0 && cc.Cfg.WindowSize == 0 {
+			cc.Cfg.WindowSize = cc.Cfg.BufferSize
+		}
+		if r.Intn(3) == 0 {
+			// one explicit parameter, the others defaulted
+			switch typ {
+			case "HP", "BHP", "BUP":
+				cc.Cfg.InputLen = 3 + r.Intn(3)
+			case "DHP", "BDHP":
+				cc.Cfg.InputLen1 = 3 + r.Intn(2)
+			default:
+				cc.Cfg.MinMatchLen = 3 + r.Intn(2)
+			}
+		}
+		n := 4000 + r.Intn(12000)
+		base := make([]byte, n)
+		r.Read(base)
+		data := append([]byte(nil), base...)
+		piece := 16 + r.Intn(48)
+		for _, j := range r.Perm(n / piece) {
+			data = append(data, base[j*piece:(j+1)*piece]...)
+		}
+		cc.Data = data
 	default:
 		cc.Twin = true
 		cc.Cfg = gen.SmallCfg(r, typ, gen.Opts{})
